@@ -117,6 +117,7 @@ func Gen(r *rng.R) *Case {
 	for _, i := range perm[:n] {
 		c.Produces = append(c.Produces, AllMedia[i])
 	}
+	c.Compact = r.Chance(1, 3)
 	c.Default = defaults[r.Intn(len(defaults))]
 	switch x := r.Intn(100); {
 	case x < 8:
